@@ -608,6 +608,55 @@ def r1_schedule_recurrence(F, r):
     chk("total duration", good, "end.departure - start.departure", "the tour's total duration is not `end.schedule.departure - start.schedule.departure`", ufn["bbs"][0]["s"][0].get("ln") if ufn["bbs"][0]["s"] else None)
 
 
+def r2_latest_arrival_recurrence(F, r):
+    """backward pass: latest_departure_i = latest_arrival_{i+1} - duration(loc_i -> loc_{i+1}, Arrival(latest_arrival_{i+1})); latest_arrival_i = estimate_arrival(act_i,
+    latest_departure_i); future waiting_i = future waiting_{i+1} + max(tw.start_i - arrival_i, 0)"""
+    root = F.find1("schedule_update::update_states")
+    cls = [g for g in F.family(root) if any(t["callee"] == TCD + "duration" for _, t in mir.calls(F.fns[g]))]
+    if not cls:
+        raise AnchorError("update_states: the travel duration is no longer queried")
+    g = cls[0]
+    fn = F.fns[g]
+    if len(cls) != 1 or fn["kind"] != "Closure" or fn["argc"] < 3 or not fn["locals"][2].startswith("("):
+        r.ok("update_states: form", "not decided: the backward pass is not written as a fold over an (end time, location, waiting) triple")
+        return
+    acc, act = ("arg", 2), ("arg", 3)
+    dur = [t for _, t in mir.calls(fn) if t["callee"] == TCD + "duration"]
+    arr = [t for _, t in mir.calls(fn) if t["callee"].endswith("ActivityCost::estimate_arrival")]
+    if len(dur) != 1 or len(arr) != 1:
+        raise AnchorError(f"update_states closure: {len(dur)} duration, {len(arr)} estimate_arrival calls")
+    dur, arr = dur[0], arr[0]
+    e_from, e_to, e_time = (mir.expr(fn, a) for a in dur["args"][2:5])
+
+    def chk(inst, ok, good, bad, ln):
+        if ok:
+            r.ok("update_states: " + inst, good)
+        else:
+            r.fail("update_states: " + inst, bad, F.loc(g, ln))
+    chk("leg origin", e_from == (act, ("*", ".place", ".location")), "duration queried from this activity's location ...", "the backward leg is not queried FROM the current activity's location", dur["ln"])
+    chk("leg destination", e_to == (acc, (".1",)), "... to the location of the following activity (carried)", "the backward leg is not queried TO the location carried from the following activity", dur["ln"])
+    chk("leg time", e_time[0][0] == "agg" and e_time[0][1].endswith("TravelTime#Arrival") and e_time[0][2] and e_time[0][2][0] == (acc, (".0",)),
+        "... arriving at the following activity's latest arrival (carried)", "the backward leg is not queried at TravelTime::Arrival(latest arrival of the following activity)", dur["ln"])
+    e_dep = mir.expr(fn, arr["args"][-1])
+    ok = e_dep[0][0] == "bin" and e_dep[0][1] == "Sub" and e_dep[0][2] == (acc, (".0",)) and _is_call(e_dep[0][3], "TransportCost::duration")
+    chk("latest departure", ok, "latest departure = following latest arrival - travel duration", "the latest departure is not `latest arrival of the following activity - travel duration` "
+        "(operands swapped or added): latest arrivals are too late and infeasible insertions pass the time-window gate", arr["ln"])
+    chk("latest arrival subject", mir.expr(fn, arr["args"][-2])[0] == act, "estimate_arrival asked about this activity", "estimate_arrival is not asked about the current activity", arr["ln"])
+    # waiting: pushes an Add(acc.2, max(Sub(tw.start, arrival), 0))
+    ok = False
+    for _, t in mir.calls(fn):
+        if t["callee"].endswith("Vec::<T, A>::push") and len(t["args"]) == 2:
+            e = mir.expr(fn, t["args"][1])
+            if e[0][0] == "bin" and e[0][1] == "Add" and (acc, (".2",)) in e[0][2:4]:
+                other = [x for x in e[0][2:4] if x != (acc, (".2",))]
+                if other and _is_call(other[0], "<impl f64>::max"):
+                    sub = [x for x in other[0][0][2] if x[0][0] == "bin"]
+                    zero = [x for x in other[0][0][2] if x[0][0] == "const" and str(x[0][1]).startswith("0")]
+                    if sub and zero and sub[0][0][1] == "Sub" and sub[0][0][2] == (act, ("*", ".place", ".time", ".start")) and sub[0][0][3] == (act, ("*", ".schedule", ".arrival")):
+                        ok = True
+    chk("future waiting", ok, "waiting = following waiting + max(tw.start - arrival, 0)", "the future waiting time is not `carried waiting + max(window start - arrival, 0)`", fn["bbs"][0]["s"][0].get("ln") if fn["bbs"][0]["s"] else None)
+
+
 HANDOVER = list(typestate.HANDOVER_TRAIT_METHODS) + ["vrp_core::solver::search::recreate::Recreate::run"]
 T1_EXCEPTIONS = {
     "<vrp_core::solver::processing::vicinity_clustering::VicinityClustering as rosomaxa::evolution::HeuristicSolutionProcessing>::post_process":
@@ -686,6 +735,7 @@ def run(ctx):
     except AnchorError as e:
         ctx.rule("C05-K", "slot refresh rules").broken(str(e))
     ctx.run("C05-R1", "schedule recurrence: arrival/departure/carry of the forward pass and the total duration have their defining form (canonical expressions)", r1_schedule_recurrence, floor=8)
+    ctx.run("C05-R2", "latest-arrival / waiting recurrence of the backward pass has its defining form (canonical expressions)", r2_latest_arrival_recurrence, floor=6)
     ctx.run("C05-T1", "typestate: every hand-over function returns only solutions whose routes were accepted after the last mutation", t1_handover, floor=25)
     ctx.run("C05-I1", "tour insertion in evaluator/insertion code is followed by goal.accept_* on every path", i1_insert_then_accept, floor=2)
     ctx.extra["slots"] = {"route": len({o.key for o in kv.ops(F) if o.store == "route"}),
